@@ -480,7 +480,7 @@ class kLeastAbsErrorsCycles(walkmodel.AbstractWalkModelDiGraph):
 
         # sum of edge errors
         edge_errors = self.get_solution()["edge_errors"]
-        return sum(edge_errors.values())
+        return sum(error * self.edge_error_scaling.get(edge, 1) for edge, error in edge_errors.items())
     
     def get_lowerbound_k(self):
 
